@@ -209,6 +209,10 @@ func switchCases(fn *ast.FuncDecl, tagSuffix string) [][]string {
 	return res
 }
 
+var readerPrimitives = map[string]bool{"String": true, "StringOrNull": true, "Bool": true, "BoolOrNull": true, "Int": true,
+	"IntOrNull": true, "Float64": true, "Float64OrNull": true, "Array": true, "ArrayOrNull": true, "Object": true,
+	"ObjectOrNull": true, "Any": true, "Null": true, "SkipValue": true}
+
 // readerCallsIn returns the reader-ish calls made directly in a list of statements (not inside
 // nested switch statements): the primitive a decoder case uses for its property.
 func readerCall(stmts []ast.Stmt) string {
@@ -220,9 +224,13 @@ func readerCall(stmts []ast.Stmt) string {
 				return false
 			case *ast.CallExpr:
 				name := exprStr(t.Fun)
-				if strings.HasPrefix(name, "r.") {
-					calls = append(calls, strings.TrimPrefix(name, "r."))
-				} else if strings.HasPrefix(name, "read") {
+				if sel, ok := t.Fun.(*ast.SelectorExpr); ok && readerPrimitives[sel.Sel.Name] {
+					if _, isIdent := sel.X.(*ast.Ident); isIdent {
+						calls = append(calls, sel.Sel.Name)
+						return true
+					}
+				}
+				if strings.HasPrefix(name, "read") {
 					calls = append(calls, name)
 				} else if strings.HasSuffix(name, ".ReadFromJSONReader") {
 					calls = append(calls, "ReadFromJSONReader")
@@ -374,6 +382,46 @@ func baseType(t string) string {
 	return t
 }
 
+// typedPath renders an access path with the root identifier replaced by its declared type and
+// index expressions by [], so that renaming a parameter, receiver or loop variable changes nothing.
+func typedPath(e ast.Expr, params map[string]string) string {
+	switch t := e.(type) {
+	case *ast.Ident:
+		if ty, ok := params[t.Name]; ok {
+			return "(" + ty + ")"
+		}
+		return t.Name
+	case *ast.SelectorExpr:
+		return typedPath(t.X, params) + "." + t.Sel.Name
+	case *ast.IndexExpr:
+		return typedPath(t.X, params) + "[]"
+	case *ast.StarExpr:
+		return "*" + typedPath(t.X, params)
+	case *ast.ParenExpr:
+		return typedPath(t.X, params)
+	case *ast.CallExpr:
+		return typedPath(t.Fun, params) + "()"
+	}
+	return exprStr(e)
+}
+
+func paramTypes(fd *ast.FuncDecl) map[string]string {
+	params := map[string]string{}
+	add := func(fl *ast.FieldList) {
+		if fl == nil {
+			return
+		}
+		for _, f := range fl.List {
+			for _, n := range f.Names {
+				params[n.Name] = exprStr(f.Type)
+			}
+		}
+	}
+	add(fd.Recv)
+	add(fd.Type.Params)
+	return params
+}
+
 func rootIdent(e ast.Expr) string {
 	for {
 		switch t := e.(type) {
@@ -420,7 +468,7 @@ func sharedWrites(p *pkgFiles, pkgVars map[string]bool) []string {
 				// plain assignment to a parameter rebinding the local copy is not a shared write,
 				// but assignment to a package-level variable is
 				if pkgVars[lhs.(*ast.Ident).Name] {
-					out = append(out, p.name+"."+qualName(fd)+": "+exprStr(lhs))
+					out = append(out, p.name+"."+qualName(fd)+": "+typedPath(lhs, params))
 				}
 				return
 			}
@@ -430,7 +478,7 @@ func sharedWrites(p *pkgFiles, pkgVars map[string]bool) []string {
 			}
 			if pkgVars[root] {
 				if _, shadow := params[root]; !shadow {
-					out = append(out, p.name+"."+qualName(fd)+": "+exprStr(lhs))
+					out = append(out, p.name+"."+qualName(fd)+": "+typedPath(lhs, params))
 					return
 				}
 			}
@@ -447,7 +495,7 @@ func sharedWrites(p *pkgFiles, pkgVars map[string]bool) []string {
 				visible = true
 			}
 			if visible && sharedTypes[baseType(t)] {
-				out = append(out, p.name+"."+qualName(fd)+": "+exprStr(lhs))
+				out = append(out, p.name+"."+qualName(fd)+": "+typedPath(lhs, params))
 			}
 		}
 		ast.Inspect(fd.Body, func(n ast.Node) bool {
@@ -466,7 +514,13 @@ func sharedWrites(p *pkgFiles, pkgVars map[string]bool) []string {
 		})
 	}
 	sort.Strings(out)
-	return out
+	dedup := out[:0]
+	for i, x := range out {
+		if i == 0 || x != out[i-1] {
+			dedup = append(dedup, x)
+		}
+	}
+	return dedup
 }
 
 func containsIndex(e ast.Expr) bool {
@@ -668,7 +722,7 @@ func main() {
 					}
 					return true
 				})
-				first = exprStr(is.Cond) + " => " + ret
+				first = typedPath(is.Cond.(*ast.BinaryExpr).X, paramTypes(fd)) + " != nil => " + ret
 			}
 		}
 	}
@@ -702,7 +756,7 @@ func main() {
 			if c, ok := n.(*ast.CallExpr); ok && exprStr(c.Fun) == "fmt.Sprintf" && len(c.Args) > 0 {
 				args := []string{}
 				for _, a := range c.Args[1:] {
-					args = append(args, exprStr(a))
+					args = append(args, typedPath(a, paramTypes(fd)))
 				}
 				format = unquote(exprStr(c.Args[0])) + " <- " + strings.Join(args, ", ")
 			}
@@ -718,8 +772,8 @@ func main() {
 			continue
 		}
 		for _, f := range fd.Type.Params.List {
-			for _, nm := range f.Names {
-				if nm.Name == "stack" {
+			if strings.Contains(exprStr(f.Type), "evaluationStack") {
+				for range f.Names {
 					stack = append(stack, pair{fd.Name.Name, exprStr(f.Type)})
 				}
 			}
@@ -783,10 +837,13 @@ func main() {
 		ops := []string{}
 		ast.Inspect(fd.Body, func(n ast.Node) bool {
 			if c, ok := n.(*ast.CallExpr); ok {
-				s := exprStr(c.Fun)
-				switch s {
-				case "r.Array", "r.ArrayOrNull", "r.Object", "r.ObjectOrNull":
-					ops = append(ops, strings.TrimPrefix(s, "r."))
+				if sel, ok := c.Fun.(*ast.SelectorExpr); ok {
+					switch sel.Sel.Name {
+					case "Array", "ArrayOrNull", "Object", "ObjectOrNull":
+						if _, isIdent := sel.X.(*ast.Ident); isIdent {
+							ops = append(ops, sel.Sel.Name)
+						}
+					}
 				}
 			}
 			return true
